@@ -2,7 +2,7 @@
    cfg ranges over all configurations (any number of nodes, addresses shared or empty, any groups with
    shared nodes), h over all finite histories of events (including reloads, suppression scopes). *)
 From Coq Require Import List NArith ZArith Bool.
-From Dae Require Import C16_Spec C16_Model C16_Proofs.
+From Dae Require Import C16_Spec C16_Model C16_Proofs C16_ProofsHealth C16_ProofsEdges C16_ProofsFloor C16_ProofsGroups C16_ProofsGroupsReload C16_ProofsGroupsFinal.
 From Dae.gen Require Import C16_Consts.
 Import ListNotations.
 Open Scope N_scope.
@@ -58,6 +58,112 @@ Theorem C16_suppressed_never_counts :
     /\ m_tlog (m_run cfg (h ++ [EFail n d k ign l])) = [].
 Proof. exact C16_suppressed_never_counts_proof. Qed.
 Print Assumptions C16_suppressed_never_counts.
+
+(* ---- the model's node health refines the spec replay ------------------------------------------------ *)
+(* R (C16_Proofs.v): alive flags equal, counts equal where alive, death counts, suppression equal.
+   Every reachable model state is R-related to a spec state (its abstraction), the initial states are
+   related, and every event other than a reload preserves R and reports exactly the spec's transitions. *)
+Theorem C16_refinement_step :
+  forall cfg h s e, no_reload e = true -> R (m_run cfg h) s ->
+    R (m_step cfg (m_run cfg h) e) (fst (s_step cfg s e)) /\ m_tlog (m_step cfg (m_run cfg h) e) = snd (s_step cfg s e).
+Proof. exact C16_step_refines_reachable. Qed.
+Print Assumptions C16_refinement_step.
+
+Theorem C16_refinement_run :
+  (forall cfg, R (m_init cfg) s_init) /\ (forall m, R m (abs_state m)) /  (forall cfg h0 s0 h, R (m_run cfg h0) s0 -> Forall (fun e => no_reload e = true) h ->
+     R (m_run cfg (h0 ++ h)) (s_run_from cfg s0 h)).
+Proof. exact (conj C16_R_init_proof (conj C16_R_abs_proof C16_run_refines_proof)). Qed.
+Print Assumptions C16_refinement_run.
+
+(* the death rule: alive flags and callbacks of the code-shaped model are those of the spec replay
+   (documented thresholds, consecutive counts, escalation, suppression, ignorable errors) *)
+Theorem C16_thresholds :
+  forall cfg h, Forall (fun e => no_reload e = true) h ->
+    (forall n d, model_alive cfg h n d = spec_alive cfg h n d)
+    /\ (forall e, no_reload e = true -> m_tlog (m_run cfg (h ++ [e])) = spec_transitions cfg h e).
+Proof. exact (fun cfg h H => conj (C16_thresholds_proof cfg h H) (fun e He => C16_transitions_refine_proof cfg h e H He)). Qed.
+Print Assumptions C16_thresholds.
+
+(* ... as an iff, after ANY history (reloads included): a counted non-forced failure leaves the node dead
+   iff it was dead or the run of consecutive counted failures of that source reaches the documented number *)
+Theorem C16_death_rule :
+  forall cfg h s n d k l, R (m_run cfg h) s -> k <> KForced ->
+    (model_alive cfg (h ++ [EFail n d k false l]) n d = false
+     <-> (model_alive cfg h n d = false
+          \/ (suppressed s = false /\ k_of d (is_traffic k) <= run_of (s_dom s n d) (is_traffic k) + 1))).
+Proof. exact C16_death_rule_proof. Qed.
+Print Assumptions C16_death_rule.
+
+Theorem C16_escalation_after_three_deaths :
+  forall cfg h s n d k l,
+    R (m_run cfg h) s -> k <> KForced -> suppressed s = false ->
+    model_alive cfg h n d = true -> k_of d (is_traffic k) <= run_of (s_dom s n d) (is_traffic k) + 1 ->
+    c_addr cfg n <> 0 ->
+    let m' := m_run cfg (h ++ [EFail n d k false l]) in
+    (forall n' d', n' <> n -> d_alive (m_d m' n') d' = model_alive cfg h n' d')
+    /\ (k_deaths <= s_deaths s (c_addr cfg n) + 1 ->
+          (forall d', d_alive (m_d m' n) d' = false) /\ m_tracker m' (c_addr cfg n) = 0)
+    /\ (s_deaths s (c_addr cfg n) + 1 < k_deaths ->
+          (forall d', d' <> d -> d_alive (m_d m' n) d' = model_alive cfg h n d') /\ d_alive (m_d m' n) d = false
+          /\ m_tracker m' (c_addr cfg n) = s_deaths s (c_addr cfg n) + 1).
+Proof. exact C16_escalation_after_three_deaths_proof. Qed.
+Print Assumptions C16_escalation_after_three_deaths.
+
+(* ---- callbacks fire exactly on flips, for every event of every history (reloads: relative to the fresh
+   generation's all-alive dialers) ------------------------------------------------------------------- *)
+Theorem C16_edge_triggered :
+  forall cfg h e,
+    valid_log (if no_reload e then model_alive cfg h else (fun _ _ => true))
+              (m_tlog (m_run cfg (h ++ [e]))) (model_alive cfg (h ++ [e])).
+Proof. exact C16_edge_triggered_proof. Qed.
+Print Assumptions C16_edge_triggered.
+
+Theorem C16_edge_once :
+  forall cfg h e, no_reload e = true ->
+    NoDup (map (fun t => (fst (fst t), dom_code (snd (fst t)))) (m_tlog (m_run cfg (h ++ [e])))).
+Proof. exact C16_edge_once_proof. Qed.
+Print Assumptions C16_edge_once.
+
+(* ---- group view, after every history (reloads included) ---------------------------------------------- *)
+Theorem C16_groups_agree :
+  forall cfg h gi g d,
+    nth_error (c_groups cfg) (N.to_nat gi) = Some g -> keeps_sets g = true ->
+    let a := m_sets (m_run cfg h) gi d in
+    NoDup (map fst (as_entries a))
+    /\ (forall x, is_member x (as_entries a) = true -> In x (map fst (g_members g)))
+    /\ (forall x, In x (map fst (g_members g)) -> is_member x (as_entries a) = model_alive cfg h x d).
+Proof. exact C16_groups_agree_proof. Qed.
+Print Assumptions C16_groups_agree.
+
+(* the kernel connectivity slot of a latency-policy group is 0 exactly when the group has members and none
+   is alive for the type (true of the model of the repaired code, commit 5091dd9) *)
+Theorem C16_connectivity_bit :
+  forall cfg h gi g d,
+    nth_error (c_groups cfg) (N.to_nat gi) = Some g -> g_policy g = PMin ->
+    m_bits (m_run cfg h) gi d = bit_of_alive (model_alive cfg h) g d.
+Proof. exact C16_connectivity_bit_proof. Qed.
+Print Assumptions C16_connectivity_bit.
+
+Theorem C16_connectivity_bit_spec :
+  forall cfg h gi g d, Forall (fun e => no_reload e = true) h ->
+    nth_error (c_groups cfg) (N.to_nat gi) = Some g -> g_policy g = PMin ->
+    m_bits (m_run cfg h) gi d = spec_bit cfg h g d.
+Proof. exact C16_connectivity_bit_spec_proof. Qed.
+Print Assumptions C16_connectivity_bit_spec.
+
+(* ---- reload ------------------------------------------------------------------------------------------ *)
+Theorem C16_reload_handover_partial :
+  forall cfg h l,
+    let m' := m_run cfg (h ++ [EReload l]) in
+    (forall n i, md_fail (m_d m' n) i = 0 /\ md_traffic (m_d m' n) i = 0)
+    /\ (forall n d, model_alive cfg h n d = true -> d_alive (m_d m' n) d = true).
+Proof. exact C16_reload_handover_partial_proof. Qed.
+Print Assumptions C16_reload_handover_partial.
+
+Theorem C16_reload_floor_partial :
+  forall cfg h l, groups_disjoint cfg -> m_floor_ok cfg (m_run cfg (h ++ [EReload l])) = true.
+Proof. exact C16_reload_floor_partial_proof. Qed.
+Print Assumptions C16_reload_floor_partial.
 
 (* FULL statement for the reload floor — false of the faithful model (and of the code) when groups share a node *)
 Definition C16_reload_floor_full : Prop := C16_reload_floor_full_def.
